@@ -4,7 +4,7 @@
 
    UNBOUNDED on a fragment (C03_fragment_parses): for every tree - any number of blocks, any
    depth - built from plain paragraphs of one or more lines, ATX headings, fenced code blocks (` or ~ fences of any length, any content lines),
-   block quotes and lists of one or more items separated by blank lines (same bullet, or same delimiter with any numbers; the items but the last loose) (markers
+   block quotes and lists of one or more items, each followed by a blank line or directly by the next (same bullet, or same delimiter with any numbers; an item followed by a blank line or holding two blocks is loose, the list is tight only if no item is) (markers
    + - * and 1-9 digits with . or ), padding 1-4), siblings separated by one blank line, two
    lists never being adjacent siblings, the block tokenizer returns on the spelled text exactly
    the pre-token tree written from the tree: kinds, nesting, the line every block starts on,
@@ -57,7 +57,7 @@ Print Assumptions C03_fragment_hypotheses.
 
 (* ... and through the inline phase: the token tree of the spelled text is the tree it was written from
    (tok_of: paragraphs holding their lines as raw text separated by soft line breaks, one-line paragraphs holding raw text, one Emphasis / Strong, raw text
-   (leaf FEm: the span types must also satisfy emph_spans), quotes, lists of one or more items separated by blank lines (same bullet, or same delimiter with any numbers; the items but the last loose) with the marker's attributes) *)
+   (leaf FEm: the span types must also satisfy emph_spans), quotes, lists of one or more items, each followed by a blank line or directly by the next (same bullet, or same delimiter with any numbers; an item followed by a blank line or holding two blocks is loose, the list is tight only if no item is) with the marker's attributes) *)
 From Mistletoe Require Import Proofs.EmphSimple Proofs.InertProse.
 Theorem C03_fragment_token_tree : forall types span_types keep t f ln st,
   fragment_config types = true -> prose_spans span_types = true -> emph_spans span_types = true -> inert_spans span_types = true ->
@@ -294,18 +294,23 @@ Theorem C03_fragment_inert_instance :
 Proof. vm_compute. repeat split; reflexivity. Qed.
 Print Assumptions C03_fragment_inert_instance.
 
-(* lists of SEVERAL items (leaf-ward constructor FMore: an item, a blank line, the rest of the same list - same bullet, or same
-   delimiter with any numbers): one List whose items but the last are loose (the blank line after an item is the item's own; under
-   the Markdown token set it is the item's last child, a BlankLine), start number from the first marker; all of it again at every depth *)
+(* lists of SEVERAL items (leaf-ward constructor FMore: an item, a blank line or nothing, the rest of the same list - same bullet, or
+   same delimiter with any numbers): one List; an item followed by a blank line is loose (the blank line is the item's own; under the
+   Markdown token set it is the item's last child, a BlankLine), otherwise loose only with two blocks or more; the list is tight - items
+   without <p> - only if none of its items is loose; start number from the first marker; all of it again at every depth *)
 Theorem C03_fragment_lists_instance :
-  let t := FQuote [FMore (MOrdered $"7" 41) 1 [FPara 97 [] []] (FMore (MOrdered $"12" 41) 2 [FPara 98 [] []; FRule 42 0] (FItem (MOrdered $"0" 41) 1 [FItem (MBullet 45) 1 [FPara 99 [] []]]))] in
-  wf_b t = true /\
+  let t := FQuote [FMore (MOrdered $"7" 41) 1 [FPara 97 [] []] true (FMore (MOrdered $"12" 41) 2 [FPara 98 [] []; FRule 42 0] true (FItem (MOrdered $"0" 41) 1 [FItem (MBullet 45) 1 [FPara 99 [] []]]))] in
+  let u := FMore (MBullet 45) 1 [FPara 97 [] []] false (FMore (MBullet 45) 3 [FPara 98 [] [ $"c" ]] false (FItem (MBullet 45) 1 [FFence 96 3 []])) in
+  wf_b t = true /\ wf_b u = true /\
   text_of (spell t) = [ $"> 7) a" ++ [10%Z]; $"> " ++ [10%Z]; $"> 12)  b" ++ [10%Z]; $"> " ++ [10%Z]; $">      ***" ++ [10%Z]; $"> " ++ [10%Z]; $"> 0) - c" ++ [10%Z] ] /\
+  text_of (spell u) = [ $"- a" ++ [10%Z]; $"-   b" ++ [10%Z]; $"    c" ++ [10%Z]; $"- ```" ++ [10%Z]; $"  ```" ++ [10%Z] ] /\
   html_f (mkHopts false false) false t =
     $"<blockquote>" ++ [10%Z] ++ $"<ol start=""7"">" ++ [10%Z] ++ $"<li>" ++ [10%Z] ++ $"<p>a</p>" ++ [10%Z] ++ $"</li>" ++ [10%Z] ++
     $"<li>" ++ [10%Z] ++ $"<p>b</p>" ++ [10%Z] ++ $"<hr />" ++ [10%Z] ++ $"</li>" ++ [10%Z] ++
     $"<li>" ++ [10%Z] ++ $"<ul>" ++ [10%Z] ++ $"<li>c</li>" ++ [10%Z] ++ $"</ul>" ++ [10%Z] ++ $"</li>" ++ [10%Z] ++ $"</ol>" ++ [10%Z] ++ $"</blockquote>" /\
-  wf_b (FMore (MBullet 45) 1 [FPara 97 [] []] (FItem (MBullet 43) 1 [FPara 98 [] []])) = false.
+  html_f (mkHopts false false) false u =
+    $"<ul>" ++ [10%Z] ++ $"<li>a</li>" ++ [10%Z] ++ $"<li>b" ++ [10%Z] ++ $"c</li>" ++ [10%Z] ++ $"<li>" ++ [10%Z] ++ $"<pre><code></code></pre>" ++ [10%Z] ++ $"</li>" ++ [10%Z] ++ $"</ul>" /\
+  wf_b (FMore (MBullet 45) 1 [FPara 97 [] []] true (FItem (MBullet 43) 1 [FPara 98 [] []])) = false.
 Proof. vm_compute. repeat split; reflexivity. Qed.
 Print Assumptions C03_fragment_lists_instance.
 
